@@ -1,4 +1,38 @@
 import PeptVerif.Model.Proto
-/-! driver for C07 (placeholder: replies bad-op to everything until the model is written) -/
-def step (_line : String) : String := "bad-op"
-def main : IO Unit := Proto.runDriver step
+import PeptVerif.Model.Annotation
+import PeptVerif.Model.Spans
+import PeptVerif.Model.Reorder
+/-! driver for C07: slice, the annotation return type of the digest dispatcher, digest end to end from sites -/
+open Proto Pept Pept.Reorder
+
+def parseSpan? (s : String) : Option Spans.Span :=
+  match (s.splitOn ":").mapM (·.toInt?) with
+  | some [a, b, c] => some (a, b, c)
+  | _ => none
+
+def parseSpans? (s : String) : Option (List Spans.Span) :=
+  if s.isEmpty then some [] else (s.splitOn ";").mapM parseSpan?
+
+def showPieces (sps : List Spans.Span) (ps : List Annotation) : String :=
+  "~".intercalate ((sps.zip ps).map fun p => Spans.showSpan p.1 ++ "=" ++ Wire.showAnnotation p.2)
+
+def step (line : String) : String :=
+  match splitTab line with
+  | ["slice", a, s, e, inpl] =>
+    match Wire.parseAnnotation? a, parseOptInt? s, parseOptInt? e, parseBool? inpl with
+    | some a, some s, some e, some inpl => Wire.showAnnotation (sliceOpt a s e inpl)
+    | _, _, _, _ => "bad-op"
+  | ["pieces", a, sps] =>
+    match Wire.parseAnnotation? a, parseSpans? sps with
+    | some a, some sps => showPieces sps (digestPieces a sps)
+    | _, _ => "bad-op"
+  | ["digest", a, sites, mc, lo, hi, semi, complete] =>
+    match Wire.parseAnnotation? a, parseIntList? sites, mc.toNat?, parseOptInt? lo, parseOptInt? hi, parseBool? semi,
+        parseBool? complete with
+    | some a, some sites, some mc, some lo, some hi, some semi, some c =>
+      let sps := Spans.digestSpans a.seq.length sites mc lo hi semi c
+      showPieces sps (digestPieces a sps)
+    | _, _, _, _, _, _, _ => "bad-op"
+  | _ => "bad-op"
+
+def main : IO Unit := runDriver step
